@@ -150,6 +150,35 @@ def logViaCatch (lib : Str → Frame) (w : CatchRow) (opts : List Int) (us : Lis
   | .error e => .error e
   | .ok o => logCore (stackAtLog lib w.chain us) o ex
 
+/-! ### a history of calls: when the calling thread / process are looked up -/
+
+/-- the context a lookup policy yields: the call's own, the one of the thread's first logging call
+(a value kept in `core.thread_locals`), or the one at import of `loguru._logger` -/
+def lookupCtx (l : Lookup) (imported first now : Exec) : Option Exec :=
+  match l with
+  | .perCall => some now
+  | .cachedPerThread => some first
+  | .atImport => some imported
+  | .other => none
+
+/-- the context `_log` effectively reads at a call made in context `now` (thread fields through
+`Gen.threadLookup`, process fields through `Gen.processLookup`, the clock always fresh) -/
+def effectiveExec (imported first now : Exec) : Option Exec :=
+  match lookupCtx Gen.threadLookup imported first now, lookupCtx Gen.processLookup imported first now with
+  | some t, some p =>
+    some { now with threadId := t.threadId, threadName := t.threadName,
+                    processId := p.processId, processName := p.processName }
+  | _, _ => none
+
+/-- a sequence of logging calls, each made in its own context (threads and processes may change and
+be renamed between calls); `cache` maps a thread id to the context of its first logging call -/
+def runHistory (imported : Exec) : List (Int × Exec) → List Exec → List (Option Exec)
+  | _, [] => []
+  | cache, now :: rest =>
+    match cache.lookup now.threadId with
+    | some first => effectiveExec imported first now :: runHistory imported cache rest
+    | none => effectiveExec imported now now :: runHistory imported ((now.threadId, now) :: cache) rest
+
 /-! ### `get_frame_fallback` (interpreters without `sys._getframe`) -/
 
 /-- the loop `for _ in range(n): [if frame is None: break]; frame = frame.f_back` on the chain of
